@@ -37,5 +37,5 @@ Set Extraction KeepSingleton.
 Extraction "models_vmatrix.ml"
   QI qre qim qq Qnum Qden this qi_nrm qi_sub
   v_alloc v_init v_weights v_rows v_update v_update_tab v_vi v_converged v_have_after v_solve_freqs v_plain
-  v_exactb v_wfb v_mkstd v_mkprob v_spline
+  v_exactb v_wfb v_mkstd v_mkprob v_spline build_terms_t8 build_terms_u8
   Build_vterm Build_veq CT8 CU8 CT16 CU16 CUE14 SOk.
